@@ -86,11 +86,21 @@ def trajectory_hash(src, seed, actions, modes):
     np.random.seed(seed)
     o, _ = env.reset()
     H.update(np.asarray(o).tobytes())
-    n = env.action_space.n
+    flat = hasattr(env.action_space, "n")
+    n = env.action_space.n if flat else None
+    nvec = None if flat else [int(x) for x in env.action_space.nvec]
     chance = 0
-    for a in actions:
-        act = env.action_space.actions[a % n]
-        o, r, d, t, info = env.step(int(a % n))
+    for k, a in enumerate(actions):
+        if flat:
+            act = env.action_space.actions[a % n]
+            o, r, d, t, info = env.step(int(a % n))
+        else:
+            # parameter vectors derived from the action numbers (exploits / escalations on the first hosts mostly)
+            x = int(a) * 2654435761 + k
+            v = [(x >> 3) % 2 if k % 3 else x % nvec[0], (x >> 5) % nvec[1], (x >> 9) % nvec[2], (x >> 13) % nvec[3],
+                 (x >> 17) % nvec[4], (x >> 21) % nvec[5]]
+            act = env.action_space.get_action(v)
+            o, r, d, t, info = env.step(v)
         H.update(np.asarray(o).tobytes())
         H.update(repr((float(r), bool(d), bool(t))).encode())
         H.update(json.dumps(canon_info(info), sort_keys=True).encode())
@@ -300,6 +310,7 @@ def main(tier, replay=None):
            s=st.integers(0, 2**31 - 1), ops=st.lists(engine.op_strategy(resets=False, gens=False), min_size=20, max_size=80),
            modes=engine.MODES)
     def gt(src, s, ops, modes):
+        param = not modes["flat_actions"]
         modes = dict(modes, flat_actions=True)
         try:
             acts = concretise(src, s, ops, modes)
@@ -311,6 +322,9 @@ def main(tier, replay=None):
             acts = [int(o[1]) if len(o) > 1 and isinstance(o[1], int) else 0 for o in ops]
             rep.count("trajectory-without-model-guidance(setup failed: other property)")
         tlist.append(dict(what="traj", source=src, seed=s, actions=acts, modes=modes))
+        if param or src["kind"] == "doc":
+            # the same trajectory numbers through the parameterised space (vectors)
+            tlist.append(dict(what="traj", source=src, seed=s, actions=acts, modes=dict(modes, flat_actions=False)))
     gt()
 
     from nasim.scenarios.benchmark import AVAIL_GEN_BENCHMARKS
@@ -357,7 +371,7 @@ def main(tier, replay=None):
             else:
                 h1, ch = trajectory_hash(j["source"], j["seed"], j["actions"], j["modes"])
                 h2, _ = trajectory_hash(j["source"], j["seed"], j["actions"], j["modes"])
-                bad = same_object_replay(j["source"], j["seed"], j["actions"], j["modes"])
+                bad = same_object_replay(j["source"], j["seed"], j["actions"], j["modes"]) if j["modes"].get("flat_actions", True) else None
                 if bad is not None:
                     rep.fail("C14:reseeded-replay-differs", f"one environment object, np.random.seed({j['seed']}) then generative steps from the "
                              f"initial state, re-seeded identically and repeated: results differ at call {bad}", dict(job=j))
